@@ -34,6 +34,25 @@ Record access := mkA {
 (* a return (or end of body) reached with a configured mutex held and no deferred unlock *)
 Record leak := mkL { l_file : string; l_line : N; l_func : string; l_mutex : string }.
 
+(* a guarded access together with the number of the critical section (lock acquisition, in statement
+   order within its function) in which it happens; equal non-zero numbers = no unlock in between *)
+Record section_fact := mkSF {
+  sf_func : string; sf_region : N; sf_field : string; sf_write : bool; sf_line : N
+}.
+
+(* some critical section r <> 0 of function f contains a read AND a write of every listed field:
+   the check and the update of those maps are ONE atomic step *)
+Definition check_update_atomic (l : list section_fact) (f : string) (fields : list string) : bool :=
+  existsb (fun x =>
+             String.eqb (sf_func x) f && negb (sf_region x =? 0)
+             && forallb (fun fld =>
+                           existsb (fun y => String.eqb (sf_func y) f && (sf_region y =? sf_region x)
+                                             && String.eqb (sf_field y) fld && sf_write y) l
+                           && existsb (fun y => String.eqb (sf_func y) f && (sf_region y =? sf_region x)
+                                                && String.eqb (sf_field y) fld && negb (sf_write y)) l)
+                        fields)
+          l.
+
 Definition needs_write (k : akind) : bool :=
   match k with KWrite | KAliasWrite => true | _ => false end.
 
